@@ -32,14 +32,15 @@ def _case(rng, N, k, mode, therm, probes, screening):
     dev = _device(rng, probes, screening)
     dt = float(rng.choice([0.002, 0.005, 0.0037]))
     if mode == "fixed":
-        o = dict(solve_time=max(N * dt - dt / 2, 0.0), dt_init=dt, dt_max=0.1, adaptive=False)
+        o = dict(solve_time=max(N * dt - dt / 2, 0.0), dt_init=dt, dt_max=0.1, adaptive=False,
+                 auto_dt={"steps": N, "frac": float(rng.choice([0.2, 0.35])), "exact": True, "therm_steps": int(rng.choice([3, 5])) if therm else 0})
     else:
         # adaptive with large initial step so that refusals (retries) happen
         o = dict(solve_time=float(N) * 0.12, dt_init=0.25, dt_max=0.5, adaptive=True, adaptive_window=int(rng.choice([1, 2, 3])),
                  adaptive_time_step_multiplier=float(rng.choice([0.25, 0.5])), max_solve_retries=20)
     o.update(save_every=int(k), field_units="mT", current_units="uA", output=str(rng.choice(["file", "temp"])))
     if therm:
-        o["skip_time"] = float(rng.choice([3, 5])) * (dt if mode == "fixed" else 0.12)
+        o["skip_time"] = float(rng.choice([3, 5])) * (dt if mode == "fixed" else 0.12)  # (fixed mode: overridden by auto_dt.therm_steps)
     if screening:
         o.update(include_screening=True, screening_tolerance=1e-2, max_iterations_per_step=500)
     drive = {"A": S.field_spec(rng, dev, o, "uniform", b=0.15 if mode == "fixed" else 0.9)}
